@@ -1,2 +1,5 @@
 import Glas.Props.C13
-#print axioms Glas.Props.C13.col_to_byte
+#print axioms Glas.Props.C13.clientPos_strip
+#print axioms Glas.Props.C13.pos_tracks
+#print axioms Glas.Props.C13.edit_tracks
+#print axioms Glas.Props.C13.history_tracks
